@@ -8,6 +8,7 @@ import itertools
 import sys
 
 from lib import show_list
+import grsenv  # noqa: F401  first: Groestl stand-in hash before txlib imports pycoin.symbols.grs (WIF / addresses on grs then run)
 import txlib
 from props import c05_machinery
 from txlib import hx, parse_bytes, parse_fields, show_fields, fields_of, dump_tx, parse_unspents_text, show_unspents
@@ -569,7 +570,7 @@ def oracle_sign_tx(op):
                     got = sorted((pp[0], pp[1]) for pp, _sg, _t in o.net.who_signed.public_pairs_signed(tx, i))
                     n_addr = len(o.net.who_signed.who_signed_tx(tx, i))
                 except ImportError:
-                    got, n_addr = None, None      # Groestlcoin addresses need the optional groestlcoin_hash package (absent here)
+                    got, n_addr = None, None      # (not reached: Groestlcoin addresses run under the stand-in hash of harness/grsenv.py)
                 except Exception as e:  # noqa: BLE001
                     problems.append("pass %d: who_signed raised %s on input %d" % (k, type(e).__name__, i))
                     got, n_addr = None, None
@@ -735,7 +736,7 @@ class KeyPool:
 
 
 COINS_MAIN = ["btc", "xtn", "ltc", "bch", "btg"]
-COINS_OTHER = ["doge", "dash", "bc", "mona", "via", "xch", "xtg", "tbtx"]  # grs: WIF encoding needs the groestlcoin_hash package, absent here
+COINS_OTHER = ["doge", "dash", "bc", "mona", "via", "xch", "xtg", "tbtx"]  # grs (own Tx class / digests) has its own block in gen(), dict and WIF mechanisms
 HASH_TYPES = [1, 2, 3, 0x81, 0x82, 0x83]
 KINDS = ["p2pkh", "p2pk", "p2wpkh", "p2sh-p2wpkh", "ms", "p2sh-ms", "p2wsh-ms", "p2sh-p2wsh-ms"]
 
@@ -1219,7 +1220,7 @@ def gen(ctx, emit):
         emit(scenario_op(ctx, sc, rng.choice(["dict", "dict", "wif"]), ht=ht, subset=subset, passes=passes))
 
     # --- Groestlcoin (its own Tx class and Solver: single-SHA256 digests on the legacy and the witness path), keys supplied as
-    # a lookup table (WIF text needs the optional groestlcoin_hash package, which is absent here)
+    # a lookup table or as WIF text (network.tx_utils.sign_tx: Groestl-checksummed Base58 under the stand-in hash of grsenv)
     for _ in range(ctx.n(8, 150)):
         sc = Scenario(ctx, "grs", pool)
         for kind in rng.sample(KINDS, rng.randint(2, 4)):
@@ -1229,7 +1230,7 @@ def gen(ctx, emit):
                 sc.add(kind, fresh(n), rng.randint(1, n), compressed=True if wit else rng.random() < 0.7)
             else:
                 sc.add(kind, fresh(1), compressed=True if wit else rng.random() < 0.7)
-        emit(scenario_op(ctx, sc, "dict", ht=rng.choice([None, 1, 3, 0x81])))
+        emit(scenario_op(ctx, sc, rng.choice(["dict", "wif"]), ht=rng.choice([None, 1, 3, 0x81])))
 
     # --- who_signed on the transactions the signing ops leave (unsigned, partially signed with placeholders, complete)
     for op in rng.sample(sign_ops, min(len(sign_ops), ctx.n(70, 900))):
